@@ -84,7 +84,7 @@ static bool disarm(Mode m) { bool fired = (m == M_ALLOC) ? mm().firedAfter : (m 
 // `snap` renders the observable state (contents in order + count).
 template<typename C>
 static void sweep(Ctx& c, const std::string& name, const std::function<void(C&)>& make, const std::function<void(C&)>& op,
-	const std::function<std::string(C&)>& snap, bool functorFaults)
+	const std::function<std::string(C&)>& snap, bool functorFaults, bool exactBlocks = false)
 {
 	for (int m = 0; m < (functorFaults ? 3 : 2); ++m) {
 		for (long k = 0; k < 400; ++k) {
@@ -95,6 +95,7 @@ static void sweep(Ctx& c, const std::string& name, const std::function<void(C&)>
 				make(cont);
 				std::string before = snap(cont);
 				long liveBefore = ec().live;
+				size_t blocksBefore = mm().live.size();
 				arm((Mode)m, k);
 				try { op(cont); } catch (const std::bad_alloc&) { threw = true; } catch (const std::runtime_error&) { threw = true; } catch (const std::domain_error&) { threw = true; }
 				fired = disarm((Mode)m);
@@ -105,6 +106,8 @@ static void sweep(Ctx& c, const std::string& name, const std::function<void(C&)>
 					std::string after = snap(cont);
 					if (after != before) c.fail("C04 strong: %s, %s failure #%ld: state changed: before {%s} after {%s}", name.c_str(), modeName[m], k, before.c_str(), after.c_str());
 					if (ec().live != liveBefore) c.fail("C04 leak: %s, %s failure #%ld: %ld element objects alive, %ld before the call", name.c_str(), modeName[m], k, ec().live, liveBefore);
+					// containers whose every block is a block of the manager (no pool buffers): nothing may be left allocated by the failed call
+					if (exactBlocks && mm().live.size() != blocksBefore) c.fail("C04 leak: %s, %s failure #%ld: %zu blocks of the memory manager outstanding after the failed call, %zu before it", name.c_str(), modeName[m], k, mm().live.size(), blocksBefore);
 					// remains fully usable: the same operation without a fault succeeds
 					try { op(cont); } catch (...) { c.fail("C04 usable: %s, %s failure #%ld: the retried operation threw", name.c_str(), modeName[m], k); }
 					if (c.stats.samples.size() < 10) c.stats.sample(fmt("%s: %s failure #%ld -> exception, state {%s} unchanged, retry ok", name.c_str(), modeName[m], k, before.size() > 60 ? (before.substr(0, 60) + "…").c_str() : before.c_str()));
@@ -258,6 +261,31 @@ static void treeSweeps(Ctx& c, const char* en)
 	ctorSweep(c, fmt("TreeSet(init-list) cap=%zu %s", cap, en), [] { Set d{ E(5), E(1), E(9), E(3), E(7), E(2), E(8) }; });
 }
 
+// Deep cascades: nodes of capacity 2 / 3 that are single blocks of the memory manager (MemPoolParams<1, 0>), trees grown key by
+// key so that every insertion shape occurs - in particular splits at every level up to a new root, which create five and more
+// nodes in one call (the Relocator's bookkeeping arrays then leave their internal capacity). Every insertion is swept over every
+// failing allocation / copy / comparison; with single-block nodes a node leaked by a failed insertion is visible at the
+// memory manager immediately (block count before = after) and after destruction.
+template<typename E, size_t cap>
+static void treeDeepSweeps(Ctx& c, const char* en, unsigned maxN)
+{
+	typedef momo::TreeNode<cap, 1, momo::MemPoolParams<1, 0>, true> Node;
+	typedef ThrowTreeTraits<E, Node, false> Tr;
+	typedef momo::TreeSet<E, Tr, FaultMM, momo::TreeSetItemTraits<E, FaultMM>, NoExtraT> Set;
+	for (int pattern = 0; pattern < 3; ++pattern) {		// 0: ascending keys (right spine), 1: descending (left spine), 2: middle
+		for (unsigned n = 0; n <= maxN; n += (n < 40 ? 1 : 3)) {
+			auto key = [pattern](unsigned i) { return pattern == 0 ? 1000 + i * 2 : pattern == 1 ? 100000 - i * 2 : (i % 2 ? 50000 + i : 50000 - i); };
+			auto mk = [n, key](Set& s) { for (unsigned i = 0; i < n; ++i) s.Insert(E(key(i))); };
+			std::string N = fmt("cap=%zu single-block nodes %s pattern=%d n=%u", cap, en, pattern, n);
+			size_t blocksMade = 0;
+			{ Set probe; mk(probe); size_t b0 = mm().live.size(); probe.Insert(E(key(n))); blocksMade = mm().live.size() - b0; }
+			c.stats.count(fmt("tree.deep.nodes_created_by_insert.%zu", std::min<size_t>(blocksMade, 8)));
+			sweep<Set>(c, "TreeSet.Insert(deep) " + N, mk, [n, key](Set& s) { s.Insert(E(key(n))); }, snapSet<Set>, true,
+				n > 0 /* a failed first insertion keeps the (empty) root node it created: owned by the tree, released by Clear / the destructor */);
+		}
+	}
+}
+
 int main(int argc, char** argv)
 {
 	Ctx c = parseArgs(argc, argv);
@@ -278,5 +306,7 @@ int main(int argc, char** argv)
 	treeSweeps<ElemCO, 4>(c, "copy-only");
 	treeSweeps<ElemNM, 32>(c, "nothrow-move");
 	treeSweeps<ElemCO, 32>(c, "copy-only");
+	treeDeepSweeps<ElemNM, 2>(c, "nothrow-move", c.thorough ? 400 : 130);
+	treeDeepSweeps<ElemCO, 3>(c, "copy-only", c.thorough ? 400 : 130);
 	return c.finish();
 }
